@@ -81,7 +81,15 @@ class InitMethod(MethodDescriptor):
                             )
                             if instance_default is not MISSING:
                                 parent_kwargs[attr] = instance_default
-                    if parent_metadata.key and parent_metadata.key not in parent_kwargs:
+                    if (
+                        parent_metadata.key
+                        and parent_metadata.key not in parent_kwargs
+                        and parent_metadata.key
+                        in inspect.signature(parent.__init__).parameters
+                    ):
+                        # Satisfy the (positional) key parameter of a generated
+                        # parent constructor; hand-written parent constructors
+                        # only receive the attributes they own.
                         parent_kwargs[parent_metadata.key] = MISSING
                     parent.__init__(  # pylint: disable=unnecessary-dunder-call
                         self, **parent_kwargs
